@@ -77,6 +77,12 @@ type History struct {
 	// len(items) unless an impl_failure truncated the case.
 	Executed int      `json:"executed"`
 	Failure  *Failure `json:"failure,omitempty"`
+	// Free marks a free-running scenario (free.go): Items = sequential
+	// prefix, one concurrent group, tail observers; the group is run without
+	// scheduler control Free.Reps times and Free.Outcomes lists the distinct
+	// outcomes. Stress marks a stress round (free.go).
+	Free   *FreeSpec   `json:"free,omitempty"`
+	Stress *StressSpec `json:"stress,omitempty"`
 }
 
 // ---------------------------------------------------------------------
@@ -86,15 +92,30 @@ type runCtx struct {
 	mu       sync.Mutex
 	poisoned map[int64]bool
 	cur      *[][2]int64 // callback list of the operation currently executing
+	// lockless: free-running mode. poisoned is only written by the
+	// sequential prefix (before the callers are released), so Size() reads it
+	// without taking mu and the values add no synchronisation of their own.
+	lockless bool
 }
 
 type tval struct {
 	id  int64
 	sz  uint64
 	run *runCtx
+	// deleted counts the delete callbacks seen for this value (stress runs)
+	deleted atomic.Int32
 }
 
 func (v *tval) Size() (uint64, error) {
+	if v.run == nil {
+		return v.sz, nil
+	}
+	if v.run.lockless {
+		if v.run.poisoned[v.id] {
+			return 0, fmt.Errorf("size of value %d unavailable", v.id)
+		}
+		return v.sz, nil
+	}
 	v.run.mu.Lock()
 	p := v.run.poisoned[v.id]
 	v.run.mu.Unlock()
@@ -212,6 +233,9 @@ func (r *runCtx) exec(ch *lcache, op Op, cbs *[][2]int64) Obs {
 		return Obs{Kind: "list", List: l}
 	case "poison":
 		r.mu.Lock()
+		if r.poisoned == nil {
+			r.poisoned = map[int64]bool{}
+		}
 		r.poisoned[op.Vid] = true
 		r.mu.Unlock()
 		return Obs{Kind: "done"}
@@ -1143,13 +1167,39 @@ func main() {
 	rep := c.NewReport("C16", a)
 	rep.ImplFailures = []c.ImplFailure{}
 
+	if runtime.GOMAXPROCS(0) < 4 {
+		runtime.GOMAXPROCS(4)
+	}
 	var hs []History
+	var fhs, shs []History // free-running scenarios, stress rounds
 	exhaustive := false
 	if a.Replay != "" {
+		// a history file, or a replay file of the orchestrator wrapping one
+		var wrapped struct {
+			History *History `json:"history"`
+		}
 		var h History
-		c.ReadJSON(a.Replay, &h)
-		runHistory(&h)
-		hs = []History{h}
+		c.ReadJSON(a.Replay, &wrapped)
+		if wrapped.History != nil {
+			h = *wrapped.History
+		} else {
+			c.ReadJSON(a.Replay, &h)
+		}
+		switch {
+		case h.Free != nil:
+			// timing dependent: the same scenario, repetitions and delay
+			// sequence, but the interleavings are the scheduler's
+			lru.VerifYieldHook = nil
+			runFree(&h, nil)
+			fhs = []History{h}
+		case h.Stress != nil:
+			lru.VerifYieldHook = nil
+			runStressHistory(&h)
+			shs = []History{h}
+		default:
+			runHistory(&h)
+			hs = []History{h}
+		}
 	} else {
 		nrand, ns := 300, []int{2}
 		if a.Tier == "thorough" {
@@ -1190,6 +1240,32 @@ func main() {
 		rep.Histogram["exhaustive_cases"] = id - 10000
 		rep.Histogram["corpus_cases"] = ncorpus
 		rep.Histogram["random_cases"] = nrand
+
+		// free-running part: no yield hook, no scheduler control
+		lru.VerifYieldHook = nil
+		thorough := a.Tier == "thorough"
+		fhs = freeScenarios(a.Seed, thorough)
+		par := runtime.GOMAXPROCS(0) / 4
+		if par < 1 {
+			par = 1
+		}
+		t0 := time.Now()
+		runFreeAll(fhs, par)
+		rep.Histogram["free_wall_ms"] = int(time.Since(t0).Milliseconds())
+		nstress := 48
+		if thorough {
+			nstress = 400
+		}
+		for i := 0; i < nstress; i++ {
+			shs = append(shs, stressHistory(a.Seed, i, thorough))
+		}
+		t0 = time.Now()
+		spar := runtime.GOMAXPROCS(0) / 6
+		if spar < 1 {
+			spar = 1
+		}
+		parallel(spar, len(shs), func(i int) { runStressHistory(&shs[i]) })
+		rep.Histogram["stress_wall_ms"] = int(time.Since(t0).Milliseconds())
 	}
 	sort.SliceStable(hs, func(i, j int) bool { return hs[i].ID < hs[j].ID })
 
@@ -1219,6 +1295,82 @@ func main() {
 			casesHeader+strings.Join(terms[lo:hi], ";\n")+"\n"+casesTrailer)
 	})
 
+	// free-running scenarios: own shards (fcases), stress rounds: hist files only
+	fterms := make([]string, len(fhs))
+	fpaths := make([]string, len(fhs))
+	parallel(a.Workers, len(fhs), func(i int) {
+		fterms[i] = freeTerm(&fhs[i])
+		fpaths[i] = filepath.Join(a.Out, fmt.Sprintf("hist-%d.json", fhs[i].ID))
+		c.WriteJSON(fpaths[i], fhs[i])
+	})
+	if len(fhs) > 0 {
+		fshard := (len(fhs) + 5) / 6
+		if fshard < 50 {
+			fshard = 50
+		}
+		nf := (len(fhs) + fshard - 1) / fshard
+		parallel(a.Workers, nf, func(s int) {
+			lo, hi := s*fshard, (s+1)*fshard
+			if hi > len(fhs) {
+				hi = len(fhs)
+			}
+			c.WriteFile(filepath.Join(a.Out, fmt.Sprintf("cases_free_%d.v", s)),
+				freeHeader+strings.Join(fterms[lo:hi], ";\n")+"\n"+freeTrailer)
+		})
+		rep.Histogram["free_shards"] = nf
+	}
+	if len(hs) == 0 {
+		nshards = 0
+	}
+	freeSigs := c.Signatures{}
+	for i := range fhs {
+		h := &fhs[i]
+		rep.Cases[fmt.Sprint(h.ID)] = fpaths[i]
+		rep.Histogram["free_scenarios"]++
+		rep.Histogram["free_repetitions"] += h.Free.Reps
+		rep.Histogram["free_distinct_outcomes"] += len(h.Free.Outcomes)
+		if len(h.Free.Outcomes) > 1 {
+			rep.Histogram["free_scenarios_with_several_outcomes"]++
+		}
+		if h.Free.NoCb {
+			rep.Histogram["free_scenarios_without_callback"]++
+		}
+		var sb strings.Builder
+		for j := range h.Items {
+			if h.Items[j].Op != nil {
+				sb.WriteString(letters[h.Items[j].Op.Kind])
+				continue
+			}
+			sb.WriteString("[")
+			for _, o := range h.Items[j].Conc {
+				sb.WriteString(letters[o.Kind])
+			}
+			sb.WriteString("]")
+			rep.Histogram[fmt.Sprintf("free_group_threads:%d", len(h.Items[j].Conc))]++
+		}
+		if len(h.Free.Outcomes) > 1 {
+			freeSigs.Add(sb.String())
+		}
+		if h.Failure != nil {
+			rep.ImplFailures = append(rep.ImplFailures, c.ImplFailure{Case: fmt.Sprint(h.ID),
+				Step: h.Failure.Step, What: h.Failure.What, Tag: h.Failure.Tag})
+			rep.Histogram["impl_failure:"+h.Failure.Tag]++
+		}
+	}
+	for i := range shs {
+		h := &shs[i]
+		p := filepath.Join(a.Out, fmt.Sprintf("hist-%d.json", h.ID))
+		c.WriteJSON(p, h)
+		rep.Cases[fmt.Sprint(h.ID)] = p
+		rep.Histogram["stress_rounds"]++
+		rep.Histogram["stress_ops"] += h.Stress.Ops
+		if h.Failure != nil {
+			rep.ImplFailures = append(rep.ImplFailures, c.ImplFailure{Case: fmt.Sprint(h.ID),
+				Step: h.Failure.Step, What: h.Failure.What, Tag: h.Failure.Tag})
+			rep.Histogram["impl_failure:"+h.Failure.Tag]++
+		}
+	}
+
 	sigs, nontrivial := c.Signatures{}, c.Signatures{}
 	for i := range hs {
 		h := &hs[i]
@@ -1236,15 +1388,21 @@ func main() {
 	}
 	rep.Histogram["distinct_signatures"] = len(sigs)
 	rep.Histogram["shards"] = nshards
-	rep.Evaluations = len(hs)
-	rep.DistinctNontrivial = len(nontrivial)
+	rep.Evaluations = len(hs) + len(fhs) + len(shs)
+	rep.DistinctNontrivial = len(nontrivial) + len(freeSigs)
 	rep.Exhaustive = exhaustive
 	rep.Rule = "histories of put/get/delete/loadanddelete/len/size/range*/poison/heal (and groups of 2-3 concurrent callers run under a " +
 		"controlled scheduler on the verif yield hook) executed on the real lru.Cache; signature = one letter per op (E = Put " +
 		"returned an error, P = Put that evicted, upper case = hit), concurrent group in brackets; a history is non-trivial when " +
 		"it contains an eviction, a failed Put, a delete/loadanddelete that removed nothing while some value was poisoned, or a " +
 		"concurrent group; distinct = distinct signatures among the non-trivial histories. Exhaustive part: every schedule of every " +
-		"multiset of N ops from a 10-op alphabet over keys {0,1,2} on 4 start states (N=2 quick, N=2,3 thorough)."
+		"multiset of N ops from a 10-op alphabet over keys {0,1,2} on 4 start states (N=2 quick, N=2,3 thorough). Free-running part (no " +
+		"scheduler control, no yield hook, real goroutines): scenarios = sequential prefix + 2-3 concurrent calls (all pairs and a " +
+		"sample of / all triples of the alphabet on 6 start states, with and without delete callback, plus random scenarios) repeated " +
+		"hundreds to thousands of times from a spin barrier with randomised pre-delays; every DISTINCT outcome (results of the calls + " +
+		"Len/Size/Range* afterwards) is checked in Coq to be the outcome of some sequential order of the calls; a free scenario counts " +
+		"as non-trivial (signature = op letters) when at least two distinct outcomes were observed. Stress rounds: 4-8 goroutines, random " +
+		"calls on 2-4 keys, invariants checked on the Go side during the run and at rest."
 	pick := func(pred func(h *History) bool) {
 		for i := range hs {
 			if pred(&hs[i]) {
@@ -1254,7 +1412,11 @@ func main() {
 		}
 	}
 	if a.Replay != "" {
-		rep.Samples = append(rep.Samples, hs[0])
+		for _, l := range [][]History{hs, fhs, shs} {
+			if len(l) > 0 {
+				rep.Samples = append(rep.Samples, l[0])
+			}
+		}
 	} else {
 		pick(func(h *History) bool { return h.Name == "f12" })
 		pick(func(h *History) bool { return h.Name == "random" })
